@@ -260,7 +260,9 @@ def run_valid(args):
     warnings.simplefilter("ignore")
     from tempest import Sampler
     from tempest.tools import effective_sample_size
-    kw = dict(n_dim=2, n_particles=10, sample=row["sample"], resample=row["resample"], clustering=row["clustering"],
+    if row.get("nested_dir"):
+        workdir = workdir + "/levels/that/do/not/exist/yet"          # output_dir may be any path: missing parents included
+    kw = dict(n_dim=2, n_particles=row.get("n_particles", 10), sample=row["sample"], resample=row["resample"], clustering=row["clustering"],
               normalize=row["normalize"], cluster_every=row["cluster_every"], n_max_clusters=row["n_max_clusters"],
               split_threshold=row["split_threshold"], volume_variation=row["vv"], n_steps=row["n_steps"],
               n_max_steps=row["n_max_steps"], random_state=seed, output_dir=workdir, output_label="v")
@@ -346,6 +348,11 @@ def check_valid(run, tier, rng, work):
     # "a number of processes" includes 1, and integers that come out of numpy
     rows_extra = [dict(rows[0], pool="int1", like="scalar", save_every=None), dict(rows[1 % len(rows)], pool="int1", like="blobs", save_every=2),
                   dict(rows[2 % len(rows)], pool="npint2", like="scalar", save_every=None)]
+    # the smallest particle counts (1, 2, 3) with and without blobs / clustering off, and an output directory several levels deep
+    base_r = dict(rows[0], clustering=False, pool=False)
+    rows_extra += [dict(base_r, n_particles=1, like="blobs", save_every=None), dict(base_r, n_particles=1, like="scalar", save_every=2),
+                   dict(base_r, n_particles=2, like="blobs", save_every=None), dict(base_r, n_particles=3, like="vectorized", save_every=None),
+                   dict(rows[1 % len(rows)], nested_dir=True, save_every=2, pool=False), dict(rows[2 % len(rows)], nested_dir=True, save_every=2, pool=False)]
     jobs += [(r, rng.randrange(10 ** 6), str(work / f"x{i}")) for i, r in enumerate(rows_extra)]
     par = [j for j in jobs if j[0]["pool"] not in ("int2", "npint2")]
     with mp.get_context("fork").Pool(min(14, os.cpu_count() or 4)) as pool:
